@@ -1,4 +1,5 @@
 import MalVerif.Py.TieAgSerial
+import MalVerif.PropsGen.C09
 /-!
 # C10 for the *translated* code — saving and loading an attack graph preserves it
 
@@ -131,5 +132,95 @@ theorem attacker_ids_kept (s : H) (nf af fuel : Nat) (aux0 : Aux) (m : Option Py
         (∀ i, i ∈ reachedIds t a' ↔ i ∈ reachedIds (absS s nf af) a)) ∧
       t.attackers.length = s.attackers.length)
     (fun d hd => MalVerif.C10.attacker_ids_kept (absS s nf af) (withModelOf m) hc hx d hd)
+
+/-! ### the hypotheses are satisfiable, on a non-trivial heap -/
+namespace Demo
+/-- two node objects as a caller of `add_node` constructs them: an attack step of asset `h` with tags, extras and
+MITRE info, and an enabled defense without asset -/
+def n0 : PyNode := { type := "or", name := "a", asset := some ⟨3, "T", "h"⟩, tags := ["t", "u"], extras := "{\"k\": 1}",
+                     mitre_info := some "T1" }
+def n1 : PyNode := { type := "defense", name := "d", defense_status := some ⟨"1.0", .one⟩, existence_status := some false,
+                     is_viable := false }
+def h1 : H := TG.anSt (({} : H).setN 0 n0) 0 0
+def h2 : H := TG.anSt (h1.setN 1 n1) 1 7
+def h2a : H := h2.setA 0 { name := "eve" }
+/-- what the example states about a heap -/
+def obs (s : H) : List Nat × List Nat × List Nat × List Nat × List Nat :=
+  (s.nodes, s.attackers, (s.a 0).entry_points, (s.a 0).reached_attack_steps, (s.n 1).compromised_by)
+def obs2 (s : H) : Option Int × Option Int × Option Int × Option String × Option String :=
+  ((s.n 0).id, (s.n 1).id, (s.a 0).id, (s.n 0).asset.map (·.name), (s.n 1).asset.map (·.name))
+def mdl : PyModel := ⟨fun a => if a = "h" then some ⟨3, "T", "h"⟩ else none⟩
+end Demo
+open Demo
+
+/-- a graph built with the translated `add_node` / `add_attacker` — two nodes (ids 0 and 7; one bound to asset `h`,
+with tags, extras and MITRE info; one enabled defense), an attacker who entered at the first and reached the second —
+meets every hypothesis of the round-trip theorems, with a model that knows asset `h` -/
+example : ∃ s, graph_add_attacker h2a 0 none [0] [7] = .ok s ∧ Consistent (absS s 2 1) ∧ NamesExact (absS s 2 1) ∧
+    IdsSet s ∧ s.nodes = [0, 1] ∧ s.attackers = [0] ∧ (s.a 0).entry_points = [0] ∧ (s.a 0).reached_attack_steps = [1] ∧
+    (s.n 1).compromised_by = [0] ∧ s.attackers.length < 2 ∧ ModelCovers (some mdl) s ∧ ModelOK (some mdl) := by
+  have e1 : graph_add_node (({} : H).setN 0 n0) 0 (some 0) = .ok h1 := rfl
+  have e2 : graph_add_node (h1.setN 1 n1) 1 (some 7) = .ok h2 := rfl
+  -- first node
+  have t1 := add_node_tie _ _ 0 (some 0) 0 e1
+  rw [FD.addNode_setN_fresh] at t1
+  have c1 : Consistent (absS h1 1 0) :=
+    MalVerif.C09.addNode_consistent_partial MalVerif.PropsGen.C09.init_consistent rfl rfl rfl t1
+  have x1 : NamesExact (absS h1 1 0) :=
+    MalVerif.C09.addNode_namesExact MalVerif.PropsGen.C09.init_consistent MalVerif.PropsGen.C09.init_namesExact rfl t1
+  -- second node
+  have t2 := add_node_tie _ _ 1 (some 7) 0 e2
+  rw [FD.addNode_setN_fresh] at t2
+  have c2 : Consistent (absS h2 2 0) := MalVerif.C09.addNode_consistent_partial c1 rfl rfl rfl t2
+  have x2 : NamesExact (absS h2 2 0) := MalVerif.C09.addNode_namesExact c1 x1 (by decide) t2
+  -- the attacker
+  cases e3 : graph_add_attacker h2a 0 none [0] [7] with
+  | error err =>
+    have hok : (graph_add_attacker h2a 0 none [0] [7]).toBool = true := by decide +kernel
+    rw [e3] at hok; cases hok
+  | ok s =>
+    have t3 := add_attacker_tie h2a s 0 none [0] [7] 2 ⟨rfl, rfl⟩ e3
+    have hpre : absS h2a 2 0 = { absS h2 2 0 with aobj := fun x => if x = (absS h2 2 0).afresh then absA { name := "eve" } else (absS h2 2 0).aobj x } :=
+      FD.absS_setA_fresh h2 0 { name := "eve" } 2
+    rw [hpre, FD.addAttacker_aobj_fresh] at t3
+    have c3 : Consistent (absS s 2 1) := MalVerif.C09.addAttacker_consistent c2 t3
+    have x3 : NamesExact (absS s 2 1) := addAttacker_namesExact x2 t3
+    have f1 : (graph_add_attacker h2a 0 none [0] [7]).toOption.map obs =
+        some ([0, 1], [0], [0], [1], [0]) := by decide +kernel
+    have f2 : (graph_add_attacker h2a 0 none [0] [7]).toOption.map obs2 =
+        some (some 0, some 7, some 0, some "h", none) := by decide +kernel
+    rw [e3] at f1 f2
+    injection f1 with f1
+    injection f2 with f2
+    simp only [obs, obs2, Prod.mk.injEq] at f1 f2
+    obtain ⟨g1, g2, g3, g4, g5⟩ := f1
+    obtain ⟨g6, g7, g8, g9, g10⟩ := f2
+    refine ⟨s, rfl, c3, x3, ⟨fun r hr => ?_, fun a ha => ?_⟩, g1, g2, g3, g4, g5, by rw [g2]; decide, ?_, ?_⟩
+    · rw [g1] at hr
+      rcases List.mem_cons.1 hr with rfl | hr
+      · rw [g6]; rfl
+      · rcases List.mem_cons.1 hr with rfl | hr
+        · rw [g7]; rfl
+        · cases hr
+    · rw [g2] at ha
+      rcases List.mem_cons.1 ha with rfl | ha
+      · rw [g8]; rfl
+      · cases ha
+    · intro x hx r hr o ho
+      injection hx with hx; subst hx
+      rw [g1] at hr
+      rcases List.mem_cons.1 hr with rfl | hr
+      · rw [ho] at g9; injection g9 with g9; show (mdl.get_asset_by_name o.name).isSome = true
+        have g9' : o.name = "h" := g9
+        rw [g9']; rfl
+      · rcases List.mem_cons.1 hr with rfl | hr
+        · rw [ho] at g10; cases g10
+        · cases hr
+    · intro x hx a o ho
+      injection hx with hx; subst hx
+      have : (if a = "h" then some (⟨3, "T", "h"⟩ : PyAssetObj) else none) = some o := ho
+      split at this
+      · injection this with this; subst this; rename_i h; exact h.symm
+      · cases this
 
 end MalVerif.PropsGen.C10
